@@ -742,7 +742,13 @@ func c01RTCP(r *Rng, ssrcs []uint32, seqs map[uint32][]uint16, foreignNack bool)
 
 func c01Gen(r *Rng, tier string, idx int) Case { //nolint:gocognit,cyclop,maintidx
 	r = NewRng(r.U64() ^ 0xC01C01C01) // decorrelate neighbouring cases (see c15Gen)
-	classes := []string{"write", "read", "rtcp", "mixed", "faults", "malformed", "guards", "close", "empty", "order3"}
+	// class `rtxpad`: the NACK responder is in the chain, most local streams negotiate NACK and (two of three) RTX, and
+	// most application packets carry the Padding flag with PaddingSize 0 - the form in which the padding lives inside
+	// the payload and its count is the payload's last byte - with payload lengths 1, 2, 255, 1460, ... and a tail byte
+	// below, equal to (a padding-only packet, e.g. a bandwidth probe) and above len(payload).  The responder's RTX
+	// packet factory rejects exactly "tail byte > len(payload)" (Model/Chain.lean, responderRejects); every other
+	// packet must reach the bottom writer unchanged, whether the stream has RTX or not.
+	classes := []string{"write", "read", "rtcp", "mixed", "faults", "malformed", "guards", "close", "empty", "order3", "rtxpad"}
 	cl := classes[idx%len(classes)]
 	var ops []string
 
@@ -756,6 +762,8 @@ func c01Gen(r *Rng, tier string, idx int) Case { //nolint:gocognit,cyclop,mainti
 		nReal = 3
 	case "close":
 		nReal = r.Range(0, 4)
+	case "rtxpad":
+		nReal = r.Range(1, 6)
 	}
 	pool := append([]string(nil), c01Pool...)
 	for i := len(pool) - 1; i > 0; i-- {
@@ -768,6 +776,15 @@ func c01Gen(r *Rng, tier string, idx int) Case { //nolint:gocognit,cyclop,mainti
 			k = fmt.Sprintf("fec:%d:%d", nm, r.Range(1, min(2, nm)))
 		}
 		members = append(members, k)
+	}
+	if cl == "rtxpad" {
+		hasResp := false
+		for _, k := range members {
+			hasResp = hasResp || k == "nackresp"
+		}
+		if !hasResp {
+			members[r.Intn(len(members))] = "nackresp"
+		}
 	}
 	nMock := r.Intn(4)
 	if cl == "close" {
@@ -842,6 +859,9 @@ func c01Gen(r *Rng, tier string, idx int) Case { //nolint:gocognit,cyclop,mainti
 	}
 	mk := func(kind string, s int) *gs {
 		g := &gs{ssrc: fresh(), nack: r.Chance(2, 3), rtx: r.Chance(1, 3), fec: r.Chance(1, 2), seq: r.Intn(65536)}
+		if cl == "rtxpad" && kind == "local" {
+			g.nack, g.rtx = !r.Chance(1, 6), r.Chance(2, 3)
+		}
 		g.tw = r.Range(1, 14)
 		if r.Chance(1, 3) {
 			g.tw = r.Pick(0, -1000)
@@ -902,6 +922,8 @@ func c01Gen(r *Rng, tier string, idx int) Case { //nolint:gocognit,cyclop,mainti
 			kind = r.Pick(1, 1, 1, 1, 0, 6, 9)
 		case "rtcp":
 			kind = r.Pick(5, 5, 6, 6, 7, 0, 1, 9)
+		case "rtxpad": // writes, NACKs read from the network (RTX resends of the padded packets), time
+			kind = r.Pick(0, 0, 0, 0, 0, 0, 6, 7, 9)
 		}
 		switch {
 		case kind <= 0 || kind == 2 || kind == 3: // application RTP write
@@ -942,6 +964,20 @@ func c01Gen(r *Rng, tier string, idx int) Case { //nolint:gocognit,cyclop,mainti
 			}
 			if cl == "guards" && r.Chance(1, 4) {
 				h.P, h.Pad = true, 0 // padding bit without size: the RTX form looks at the last payload byte
+			}
+			if cl == "rtxpad" && !r.Chance(1, 4) {
+				h.P, h.Pad = true, 0
+				n := r.Pick(1, 2, 255, 1460, 1, 2, 255, 3, 8, 254, 256, r.Range(1, 300))
+				pl = make([]byte, n)
+				for k := range pl {
+					pl[k] = byte(r.U64())
+				}
+				// the padding count (last payload byte): below, equal to, above the payload length, and the extremes
+				tail := r.Pick(n-1, n, n, n+1, 0, 1, 255, r.Intn(256))
+				if tail > 255 { // not representable: such a payload can only be "below"
+					tail = r.Pick(255, 254, 0)
+				}
+				pl[n-1] = byte(tail)
 			}
 			sentSeqs[g.ssrc] = append(sentSeqs[g.ssrc], uint16(h.Seq))
 			bn := r.Pick(len(pl), len(pl)+12, 0, 1500)
